@@ -613,7 +613,7 @@ func runB(c *fw.Ctx, g *lgen.Gen, base Case, onlyK int, count bool) {
 			c.End(false, "")
 			continue
 		}
-		if c.WantSample() && struck != "" && struck != "TOP" && len(base.Src) < 3000 {
+		if c.WantSample() && struck != "" && struck != "TOP" && len(base.Src) < 20000 {
 			c.Sample(map[string]any{"src": base.Src, "fault_at_dispatch": k, "struck_region": struck, "trace": tk.trace})
 		}
 		c.End(struck != "" && struck != "TOP", fmt.Sprintf("%s/B/%d", base.Src, k))
